@@ -28,13 +28,16 @@ Definition is_semi (tk : tok) : bool := ttype_eqb (fst tk) T_Punctuation && text
 Definition is_lparen (tk : tok) : bool := ttype_eqb (fst tk) T_Punctuation && text_eqb (snd tk) [40]%N.
 Definition is_rparen (tk : tok) : bool := ttype_eqb (fst tk) T_Punctuation && text_eqb (snd tk) [41]%N.
 Definition is_go (tk : tok) : bool :=
-  ttype_eqb (fst tk) T_Keyword && text_eqb (first_word space_set (snd tk)) w_GO.
-(* a keyword token (any sub-type, any letter case) spelling one of the words *)
+  ttype_eqb (fst tk) T_Keyword && text_eqb (upper (first_word space_set (snd tk))) w_GO.
+(* `unified` of _change_splitlevel: upper-cased, the white space between the words of a compound keyword
+   collapsed to one blank *)
+Definition unified (v : text) : text := join_split space_set (upper v).
+(* a keyword token (any sub-type, any letter case, any white space between its words) spelling one of the words *)
 Definition kw_among (tk : tok) (ws : list (list N)) : bool :=
-  tin (fst tk) T_Keyword && existsb (text_eqb (upper (snd tk))) ws.
+  tin (fst tk) T_Keyword && existsb (text_eqb (unified (snd tk))) ws.
 Definition kw_is (tk : tok) (w : list N) : bool := kw_among tk [w].
 Definition is_create_ddl (tk : tok) : bool :=
-  ttype_eqb (fst tk) T_DDL && text_prefixb w_CREATE (upper (snd tk)).
+  ttype_eqb (fst tk) T_DDL && text_prefixb w_CREATE (unified (snd tk)).
 
 Definition paren_delta (tk : tok) : Z := if is_lparen tk then 1 else if is_rparen tk then -1 else 0.
 Fixpoint net (p : list tok) : Z := match p with [] => 0 | tk :: r => paren_delta tk + net r end.
@@ -120,8 +123,8 @@ Proof.
   unfold paren_delta. rewrite Hl, Hr.
   unfold is_lparen, is_rparen, T_Punctuation, T_Keyword in *.
   unfold w_DECLARE, w_BEGIN, w_END_IF, w_END_FOR, w_END_WHILE in *.
-  unfold change_splitlevel. rewrite Hl, Hr, Hk. cbn [negb].
-  unfold I0.
+  unfold unified in *. unfold change_splitlevel. rewrite Hl, Hr, Hk. cbn [negb].
+  unfold I0. cbv zeta.
   repeat match goal with
          | |- context [if ?b then _ else _] => let E := fresh "E" in destruct b eqn:E
          end;
@@ -351,7 +354,8 @@ Ltac enter_kw Hk :=
   let Hl := fresh "Hl" in let Hr := fresh "Hr" in
   destruct (kw_not_paren _ Hk) as [Hl Hr];
   unfold is_lparen, is_rparen, T_Punctuation, T_Keyword in *;
-  unfold change_splitlevel; rewrite Hl, Hr, Hk; cbn [negb].
+  unfold change_splitlevel; rewrite Hl, Hr, Hk; cbn [negb]; cbv zeta;
+  match goal with |- context [join_split space_set (upper (snd ?tk))] => fold (unified (snd tk)) | _ => idtac end.
 
 Lemma csl_neutral st tk b ic :
   neutral_tok tk = true -> 1 <= b -> SB st b ic ->
@@ -364,12 +368,12 @@ Proof.
   unfold w_BEGIN, w_END, w_IF, w_FOR, w_WHILE, w_CASE, w_END_IF, w_END_FOR, w_END_WHILE in *.
   enter_kw Hk. unfold SB. cbn [existsb].
   repeat match goal with
-         | H : text_eqb (upper (snd tk)) ?w = false |- _ => rewrite H; clear H
+         | H : text_eqb (unified (snd tk)) ?w = false |- _ => rewrite H; clear H
          end.
   cbn [orb andb].
   assert (Hz : Z.eqb (begin_depth st) 0 = false) by (apply Z.eqb_neq; lia).
   rewrite Hz, ?andb_false_r.
-  destruct (ttype_eqb (fst tk) [Keyword; DDL] && text_prefixb [67; 82; 69; 65; 84; 69]%N (upper (snd tk)));
+  destruct (ttype_eqb (fst tk) [Keyword; DDL] && text_prefixb [67; 82; 69; 65; 84; 69]%N (unified (snd tk)));
     (eexists; split; [reflexivity|]; cbn; auto).
 Qed.
 
@@ -384,7 +388,7 @@ Lemma csl_begin st tk b ic :
   exists st', change_splitlevel st (fst tk) (snd tk) = (st', 1) /\ SB st' (b + 1) ic.
 Proof.
   intros Hw (Hc & Hd & Hi). kw_lemma Hw. rewrite orb_false_r in *.
-  match goal with H : text_eqb (upper _) w_BEGIN = true |- _ => unfold w_BEGIN in H; know_word H end.
+  match goal with H : text_eqb (unified _) w_BEGIN = true |- _ => unfold w_BEGIN in H; know_word H end.
   rewrite ?andb_false_r. cbn. rewrite Hc. eexists; split; [reflexivity|]. cbn. repeat split; auto; lia.
 Qed.
 
@@ -393,7 +397,7 @@ Lemma csl_end st tk b :
   exists st', change_splitlevel st (fst tk) (snd tk) = (st', -1) /\ SB st' (b - 1) false.
 Proof.
   intros Hw Hb (Hc & Hd & Hi). kw_lemma Hw. rewrite orb_false_r in *.
-  match goal with H : text_eqb (upper _) w_END = true |- _ => unfold w_END in H; know_word H end.
+  match goal with H : text_eqb (unified _) w_END = true |- _ => unfold w_END in H; know_word H end.
   rewrite ?andb_false_r. cbn. rewrite Hi. cbn. eexists; split; [reflexivity|]. cbn.
   repeat split; auto. lia.
 Qed.
@@ -403,7 +407,7 @@ Lemma csl_end_case st tk b :
   exists st', change_splitlevel st (fst tk) (snd tk) = (st', -1) /\ SB st' b false.
 Proof.
   intros Hw (Hc & Hd & Hi). kw_lemma Hw. rewrite orb_false_r in *.
-  match goal with H : text_eqb (upper _) w_END = true |- _ => unfold w_END in H; know_word H end.
+  match goal with H : text_eqb (unified _) w_END = true |- _ => unfold w_END in H; know_word H end.
   rewrite ?andb_false_r. cbn. rewrite Hi. cbn. eexists; split; [reflexivity|]. cbn. repeat split; auto; lia.
 Qed.
 
@@ -412,7 +416,7 @@ Lemma csl_case st tk b ic :
   exists st', change_splitlevel st (fst tk) (snd tk) = (st', 1) /\ SB st' b true.
 Proof.
   intros Hw Hb (Hc & Hd & Hi). kw_lemma Hw. rewrite orb_false_r in *.
-  match goal with H : text_eqb (upper _) w_CASE = true |- _ => unfold w_CASE in H; know_word H end.
+  match goal with H : text_eqb (unified _) w_CASE = true |- _ => unfold w_CASE in H; know_word H end.
   rewrite ?andb_false_r. cbn. rewrite Hc.
   replace (begin_depth st >? 0) with true by (symmetry; rewrite Z.gtb_ltb; apply Z.ltb_lt; lia).
   cbn. eexists; split; [reflexivity|]. cbn. repeat split; auto; lia.
